@@ -101,7 +101,7 @@ chk("C16", "web", EX,
     "DESIGN.md §3 C16")
 chk("C17", "registry-seq", EX,
     "operation-sequence monitor of Collection against a reference registry; provider snapshots re-queried after later edits",
-    "Held on ALL sequences of length <=3 / <=4 over a 15-op alphabet + 1 000 / 30 000 random sequences of length 20 over 4 types x 2 keys x 2 groups; after every step views, a fresh Build (which constructors run, which identities resolve) and every earlier provider are compared with the reference.",
+    "Held on ALL sequences of length <=3 / <=4 over a 16-op alphabet + 1 000 / 30 000 random sequences of length 20 over 4 types x 2 keys x 2 groups; after every step views, a fresh Build (which constructors run, which identities resolve) and every earlier provider are compared with the reference.",
     "Where the statement is silent (Remove(T) vs keyed/grouped registrations, Count of identities vs calls) every mutually consistent outcome is accepted.",
     "DESIGN.md §3 C17")
 chk("C18", "core-exec", EX,
